@@ -9,8 +9,32 @@ DIRS = ['', 'lib', 'usr/lib64', 'plugins/a', 'plugins/b']
 ABIGNORE = b"[suppress_function]\n  name = function_that_does_not_exist_anywhere\n"
 
 
-def gen_workload(rng, big=False, devel=False):
-    """A package pair as data: files = [{path, v1, v2}] where v1/v2 name a pool library or None."""
+def elf_dirs_prefix(paths):
+    """What abipkgdiff strips from the path of a binary before using it as the key that matches the binaries of the two
+    packages (tools/abipkgdiff.cc package::load_elf_file_paths -> sorted_strings_common_prefix): the character-wise
+    common prefix of the directories of all ELF files of *that* package, here relative to the package root.  Two
+    packages whose prefixes differ match none of their binaries even when every relative path is the same."""
+    dirs = sorted(os.path.dirname(p) + '/' if os.path.dirname(p) else '' for p in paths)
+    if not dirs:
+        return None
+    pre = dirs[0]
+    for d in dirs[1:]:
+        n = 0
+        while n < len(pre) and n < len(d) and pre[n] == d[n]:
+            n += 1
+        pre = pre[:n]
+    return pre
+
+
+def side_prefixes(wl):
+    return (elf_dirs_prefix([f['path'] for f in wl['files'] if f['v1']]), elf_dirs_prefix([f['path'] for f in wl['files'] if f['v2']]))
+
+
+def gen_workload(rng, big=False, devel=False, same_prefix=False):
+    """A package pair as data: files = [{path, v1, v2}] where v1/v2 name a pool library or None.
+    same_prefix: keep the pair where the tool's binary matching is unambiguous (see elf_dirs_prefix): if the removals and
+    additions left the two sides with different ELF directory prefixes, a pair of binaries at the package root is added,
+    which makes the prefix of both sides the root."""
     nfiles = rng.range(1, 6) if not big else rng.range(6, 24)
     layout = rng.choice(['flat', 'mirrored', 'mirrored'])
     files, used = [], set()
@@ -49,6 +73,19 @@ def gen_workload(rng, big=False, devel=False):
     wl = {'files': files, 'format': fmt, 'abignore': abignore, 'options': opts}
     if devel and rng.chance(1, 3):
         wl['devel'] = True      # --devel-pkg1/--devel-pkg2: private-type suppressions are built from the headers of the devel packages
+    if same_prefix:
+        p1, p2 = side_prefixes(wl)
+        if p1 != p2:
+            free = sorted(f for f in FAMS if 'lib%s.so' % f not in used)
+            if free:
+                fam = rng.choice(free)
+                a = rng.choice(FAMS[fam])
+                b = a if rng.chance(1, 2) else rng.choice(FAMS[fam])
+                files.append({'path': 'lib%s.so' % fam, 'v1': '%s_v%d' % (fam, a), 'v2': '%s_v%d' % (fam, b)})
+            else:       # every family already has a file at the root: make one of them present on both sides
+                f = rng.choice([f for f in files if '/' not in f['path']])
+                f['v1'], f['v2'] = f['v1'] or f['v2'], f['v2'] or f['v1']
+            wl['anchored'] = True
     return wl
 
 
@@ -119,7 +156,12 @@ def gen_simt(rng, nfiles):
 
 # ---- reference model of the verdict (C30) -----------------------------------
 def model(wl, pair_status):
-    """pair_status(v1, v2, options) -> abidiff exit status.  Returns dict(status, sections, removed, added)."""
+    """pair_status(v1, v2, options) -> abidiff exit status.  Returns dict(status, sections, removed, added).
+    Only meaningful where side_prefixes(wl) are equal (gen_workload(same_prefix=True)): there, a binary of the first
+    package is matched exactly when the second package has a binary at the same relative path."""
+    # the Removed/Added lists print paths relative to the extraction root; an archive made by materialise() has the
+    # package directory as its top-level member
+    top1, top2 = ('', '') if wl['format'] == 'dir' else ('pkg-f1/', 'pkg-s1/')
     status = 0
     sections, removed, added = [], [], []
     for f in wl['files']:
@@ -129,10 +171,10 @@ def model(wl, pair_status):
             if st & 4:
                 sections.append(os.path.basename(f['path']))
         elif f['v1']:
-            removed.append(f['path'])
+            removed.append(top1 + f['path'])
             status |= 12
         else:
-            added.append(f['path'])
+            added.append(top2 + f['path'])
     return {'status': status, 'sections': sorted(sections), 'removed': sorted(removed), 'added': sorted(added)}
 
 
